@@ -342,7 +342,7 @@ theorem step_not_halted {s s' : St} {op : Op} {unw : Option (Nat × Bool)} {ext 
 theorem runExact_inv {s : St} (h : RunExact s) : InvS s [] ∧ (s.halted = true ∨ BaseOk s) := by
   induction h with
   | init => exact ⟨init_inv, Or.inr init_baseOk⟩
-  | @step s0 s1 op unw ext h0 ha hcl hs ih =>
+  | @step s0 s1 op unw ext h0 ha hs ih =>
     obtain ⟨i, hb⟩ := ih
     have hok := okFor_of_step op unw ext (run_mapInv h0.run) hs
     have hnh := step_not_halted hs
@@ -351,12 +351,11 @@ theorem runExact_inv {s : St} (h : RunExact s) : InvS s [] ∧ (s.halted = true 
       · rw [hnh] at hh; cases hh
       · exact hb
     obtain ⟨lk', i', hl⟩ := step_inv op unw ext hok i hs
-    rw [hl ha hbase.base, droppedBy_clean hcl] at i'
+    rw [hl ha hbase.base] at i'
     exact ⟨i', step_baseOk op unw ext hbase hs⟩
 
-/-- **refs_exact**: as long as no cyclic structure was built and no evaluation stack with content
-was dropped by exception unwinding (the known finding), the implementation's counter equals what is
-reachable by walking. -/
+/-- **refs_exact**: as long as no cyclic structure was built, the implementation's counter equals what
+is reachable by walking — also after exception unwinding across evaluation stacks (repair 65b0965). -/
 theorem refs_exact {s : St} (h : RunExact s) (ha : Acyclic s.c.heap) : s.c.refs = (s.reach : Int) := by
   have i := (runExact_inv h).1
   exact refs_eq_reach s.c s.roots (i.ctr.congr (by intro id; simp) (by simp)) ha
